@@ -42,6 +42,15 @@ def flat(*fs):
     return out
 
 
+def worker(quick: int = 600, thorough: int = 12000):
+    def run(tier: str, seed: int, prop: str) -> CompResult:
+        import t1_worker
+
+        return t1_worker.run(budget(tier, quick, thorough), seed)
+
+    return run
+
+
 LB = ["load", "worksteal", "loadscope", "loadfile", "loadgroup"]
 
 PROPS: dict[str, dict[str, Any]] = {
@@ -52,6 +61,15 @@ PROPS: dict[str, dict[str, Any]] = {
     "C03": {
         "components": [sched(LB, crash=0.12)],
         "assumptions": ["'head of the book = the test in hand' relies on the book/queue correspondence (C05, C07) and FIFO channels"],
+    },
+    "C05": {
+        "components": [worker()],
+        "assumptions": ["the only state shared by the two worker threads is the locked queue and the channel (checked dynamically: pre-emption at every outermost lock release)",
+                        "pytest's runtest protocol is a stub that records (item, nextitem)"],
+    },
+    "C07": {
+        "components": [worker(), sched(["worksteal"], crash=0.03)],
+        "assumptions": ["queue duplicate-freeness is an invariant of reachable system states (controller never has an index outstanding twice, C16)"],
     },
     "C15": {
         "components": [sched(["load", "worksteal"], crash=0.15)],
@@ -115,6 +133,14 @@ def replay(path: Path) -> int:
     print(json.dumps({k: data[k] for k in data if k != "broken"}, indent=1)[:4000])
     ops = data.get("ops")
     comp = data.get("component", "")
+    if ops and comp.startswith("worker."):
+        import t1_worker
+
+        model = common.run_driver("worker", ops)
+        impl = t1_worker.replay_real(ops)
+        for o, m, i in zip(ops, model, impl):
+            flag = " " if m == i else "!"
+            print(f"{flag} {o}\n    model: {m}\n    impl : {i}")
     if ops and comp.startswith("sched."):
         import t1_sched
 
